@@ -53,6 +53,25 @@ CHECKS = {
          "lists over {x,y,z-dangling} on root and loggers): strict success iff well-formed, reported names = offending names (no innocent, none missing), lossy result = valid items in order, "
          "and every returned Config goes through Logger::new and is logged through with deliveries checked by the reference router.",
          "Trusted: well-formedness read literally from the property text (so '::a' is well-formed).", "DESIGN.md §5 C13"),
+ "C12": ("model_checking", "E-ENUM",
+         "bounded exhaustive enumeration of records over an escape-class alphabet, output re-parsed by an independent strict JSON parser; plus fault histories",
+         "Every string up to length 3 (4) over 16 escape classes (quote, backslash, slash, LF, CR, TAB, NUL, U+001F, DEL, 2/3/4-byte characters, U+2028, BS, FF) in each of the 7 text "
+         "fields, all pairs of fields, all 8 present/absent combinations x 5 levels x line values, MDC maps of 0-2 entries; each output must be one strict RFC 8259 object plus exactly one "
+         "newline with no raw control byte, and parse back exactly. Histories on one thread: an encode cut short at every write position of a failing sink (and by a panicking Display argument) "
+         "followed by a normal encode, which must still be one clean line.",
+         "Trusted: the RFC 8259 parser in c12.rs. Thread names cannot contain NUL (std).", "DESIGN.md §5 C12"),
+ "C19": ("model_checking", "E-ENUM",
+         "bounded exhaustive enumeration of path token sequences through the public builders, observed as the location of the created file",
+         "Every sequence of up to 5 (6) tokens over {$ENV{, $, {, }, A, A.B, _x, U(unset), é, 日, /, -, ENV, 9, .} is used as a path below a fresh sandbox through FileAppender (all), "
+         "RollingFileAppender and FixedWindowRoller::roll (sub-lattice up to 4 (5) tokens); exactly one file must appear, at the expansion computed by a reference left-to-right scanner, "
+         "and no string may panic. 11 variables incl. empty value, value with '}', value with '{}', multi-byte names.",
+         "Trusted: the reference scanner; values without '$' (the property's domain).", "DESIGN.md §5 C19"),
+ "C20": ("model_checking", "E-ENUM",
+         "bounded exhaustive enumeration of literals through serde (YAML/JSON/TOML) against a u128 reference",
+         "Numbers at every overflow threshold (2^(64-10e)-1/+0/+1, 2^63, 2^64, 10^k to 21 digits, leading zeros) x every size unit and alias in every letter-case combination x every interval unit in "
+         "case variants x white-space placements x scalar forms (plain, quoted, integer; three formats), the rejected classes (negative, fractional, junk suffix, unknown unit) and humantime refresh_rate "
+         "literals; exact value or error as the u128 reference says, never a wrapped value or panic. Forms the property text leaves open are accepted either way.",
+         "Trusted: u128 reference. TOML cannot express integers above 2^63-1 (rejection accepted there).", "DESIGN.md §5 C20"),
 }
 PENDING_REASON = "check not built yet in this revision of /verif (planned, see DESIGN.md §5); not claimed until it exists"
 
